@@ -129,6 +129,23 @@ func (e *wordEngine) bounded(v ssa.Value, depth int, seen map[ssa.Value]bool) (b
 			if ok, _ := e.bounded(x.X, depth-1, seen); ok {
 				return true, ""
 			}
+			// x − (x / base)·base: the remainder of x by the word base, written out
+			if x.Op == token.SUB {
+				if mul, ok := stripConv(x.Y).(*ssa.BinOp); ok && mul.Op == token.MUL {
+					for _, pr := range [][2]ssa.Value{{mul.X, mul.Y}, {mul.Y, mul.X}} {
+						q, ok := stripConv(pr[0]).(*ssa.BinOp)
+						if !ok || q.Op != token.QUO {
+							continue
+						}
+						c1, ok1 := stripConv(q.Y).(*ssa.Const)
+						c2, ok2 := stripConv(pr[1]).(*ssa.Const)
+						if ok1 && ok2 && c1.Value != nil && c2.Value != nil && constant.Compare(constant.ToInt(c1.Value), token.EQL, e.base) && constant.Compare(constant.ToInt(c2.Value), token.EQL, e.base) &&
+							(stripConv(q.X) == stripConv(x.X) || structEq(stripConv(q.X), stripConv(x.X), 4)) {
+							return true, ""
+						}
+					}
+				}
+			}
 			if x.Op == token.AND {
 				if ok, _ := e.bounded(x.Y, depth-1, seen); ok {
 					return true, ""
@@ -196,6 +213,18 @@ func (e *wordEngine) callBounded(call *ssa.Call, idx int, depth int, seen map[ss
 			if idx == 1 {
 				return true, "" // remainder of a division by a word
 			}
+		case "mulAddWWW_g":
+			// (hi, lo) = x*y + c over binary words: with y <= base and c < base the high word is
+			// at most y-1 (x*y + c <= (2^W-1)*y + y-1 = 2^W*y - 1), whatever x is
+			if idx == 0 && len(call.Call.Args) == 3 {
+				y, isK := call.Call.Args[1].(*ssa.Const)
+				if isK && y.Value != nil && y.Value.Kind() == constant.Int && constant.Compare(y.Value, token.LEQ, e.base) {
+					if ok, _ := e.bounded(call.Call.Args[2], depth-1, seen); ok {
+						return true, ""
+					}
+				}
+			}
+			return false, "result of mulAddWWW_g"
 		case "divWW_g", "divWW", "divWVW", "divWVW_g":
 			// remainder (last result) when the divisor is the base or bounded
 			div := call.Call.Args[len(call.Call.Args)-1]
